@@ -505,6 +505,8 @@ theorem cancelJoin_post {s : St} (h : WInv s) (cfg : Cfg) (hs : s.stopping = tru
       have hw := stopCons_winv (h0 .prepare s.prep) s.prep.batch
       have hn2 : NoHeld (stopCons { s with rejoinD := false, jpc := .prepare } s.prep.batch).1 := stopCons_noheld hn _
       exact ⟨winv_jpc_update hw hs false .idle _, hs, hn2, rfl, rfl, rfl, rfl, rfl, rfl, fun _ h => h⟩
+    · -- hang
+      exact ⟨h0 .idle s.prep, hs, hn, rfl, rfl, rfl, rfl, rfl, rfl, fun _ h => h⟩
     · -- join
       obtain ⟨w, c, n, mo, nh⟩ := rejoinCore_stopping_winv (h0 .idle s.prep) cfg .cancelled hs
       exact ⟨w, by rw [c.stopping]; exact hs, nh hn, by rw [c.rejoinD], by rw [c.jpc], by rw [c.started],
@@ -754,10 +756,32 @@ structure CallRes (s s' : St) : Prop where
             (NoHeld s → s.started = false ∨ s.stopping = true))
         ∨ (s'.stopping = true ∧ ((s'.jpc = s.jpc ∧ s'.rejoinD = s.rejoinD) ∨ (s'.jpc = .idle ∧ s'.rejoinD = false)))
 
-theorem stopCall_res {s : St} (h : WInv s) (cfg : Cfg) (err : Option GErr) (user : Bool)
+theorem drainDone_ctl (s : St) (d : Drain) (ok : Bool) :
+    (drainDone s d ok).1.jpc = s.jpc ∧ (drainDone s d ok).1.rejoinD = s.rejoinD ∧ (drainDone s d ok).1.stopping = s.stopping ∧
+    (drainDone s d ok).1.started = s.started ∧ (drainDone s d ok).1.rejoinNeeded = s.rejoinNeeded ∧
+    (drainDone s d ok).1.hbRunning = s.hbRunning ∧ (drainDone s d ok).1.timers = s.timers := by
+  unfold drainDone
+  split <;> simp
+
+theorem drainDone_startResult (s : St) (d : Drain) (ok : Bool) : (drainDone s d ok).1.startResult = s.startResult := by
+  unfold drainDone; split <;> rfl
+
+theorem drainDone_winv {s : St} (h : WInv s) (d : Drain) (ok : Bool) : WInv (drainDone s d ok).1 := by
+  unfold drainDone
+  split
+  · exact h
+  · exact stopCons_winv h _
+
+theorem drainDone_noheld {s : St} (h : NoHeld s) (d : Drain) (ok : Bool) : NoHeld (drainDone s d ok).1 := by
+  unfold drainDone
+  split
+  · exact h
+  · exact stopCons_noheld h _
+
+theorem stopLoop_res {s : St} (h : WInv s) (cfg : Cfg) (err : Option GErr) (user : Bool)
     (hj : s.rejoinD = false → s.jpc = .idle) (hb : s.hbRunning = true → ∃ t ∈ s.timers, t.kind = .hb) :
-    CallRes s (stopCall cfg s err user).1 := by
-  unfold stopCall
+    CallRes s (stopLoop cfg s err user).1 := by
+  unfold stopLoop
   split
   · rename_i he
     have hn : NoHeld s := (heldCids_isEmpty s).mp he
@@ -768,20 +792,59 @@ theorem stopCall_res {s : St} (h : WInv s) (cfg : Cfg) (err : Option GErr) (user
     · exact Or.inr ⟨st, sh⟩
   · rename_i he
     have b := beginDrain_winv h
-    refine ⟨?_, hb, b.2, Or.inl ⟨rfl, rfl, rfl, rfl, rfl, rfl, rfl, rfl, fun hn => absurd ((heldCids_isEmpty s).mpr hn) he⟩⟩
-    have w := b.1
-    constructor <;> simp only []
-    · exact w.stop_needed
-    · exact w.hb_timer
-    · exact w.timer_lt
-    · exact w.timer_uniq
-    · exact w.dc_active
-    · exact w.held_running
-    · exact w.held_cur
-    · exact w.stop_noheld
-    · exact w.leave_stop
-    · exact w.start_res
-    · exact w.pristine
+    simp only []
+    split
+    · simp only [andThen_fst]
+      obtain ⟨c1, c2, c3, c4, c5, c6, c7⟩ := drainDone_ctl (beginDrain s).1 (beginDrain s).2.2 (!drainFails s)
+      have w2 := drainDone_winv b.1 (beginDrain s).2.2 (!drainFails s)
+      have n2 := drainDone_noheld b.2 (beginDrain s).2.2 (!drainFails s)
+      have r := coordStop_res w2 cfg err user n2 (by rw [c1, c2]; exact hj) (by rw [c6, c7]; exact hb)
+      refine ⟨r.winv, r.hb_has, r.noheld, ?_⟩
+      rcases r.shape with ⟨e, g⟩ | ⟨st, sh⟩
+      · rw [e]
+        exact Or.inl ⟨c3, c1, c2, c6, c4, (drainDone_startResult _ _ _), c7, c5, fun hn => absurd ((heldCids_isEmpty s).mpr hn) he⟩
+      · refine Or.inr ⟨st, ?_⟩
+        rcases sh with ⟨x, y⟩ | ⟨x, y⟩
+        · exact Or.inl ⟨by rw [x, c1]; rfl, by rw [y, c2]; rfl⟩
+        · exact Or.inr ⟨x, y⟩
+    · refine ⟨?_, hb, b.2, Or.inl ⟨rfl, rfl, rfl, rfl, rfl, rfl, rfl, rfl, fun hn => absurd ((heldCids_isEmpty s).mpr hn) he⟩⟩
+      have w := b.1
+      constructor <;> simp only []
+      · exact w.stop_needed
+      · exact w.hb_timer
+      · exact w.timer_lt
+      · exact w.timer_uniq
+      · exact w.dc_active
+      · exact w.held_running
+      · exact w.held_cur
+      · exact w.stop_noheld
+      · exact w.leave_stop
+      · exact w.start_res
+      · exact w.pristine
+
+/-- the `_stop_draining` flag is not constrained by the weak invariant -/
+theorem winv_flag {s : St} (h : WInv s) (b : Bool) : WInv { s with stopDraining := b } := by
+  constructor <;> simp only []
+  · exact h.stop_needed
+  · exact h.hb_timer
+  · exact h.timer_lt
+  · exact h.timer_uniq
+  · exact h.dc_active
+  · exact h.held_running
+  · exact h.held_cur
+  · exact h.stop_noheld
+  · exact h.leave_stop
+  · exact h.start_res
+  · exact h.pristine
+
+theorem stopCall_res {s : St} (h : WInv s) (cfg : Cfg) (err : Option GErr) (user : Bool)
+    (hj : s.rejoinD = false → s.jpc = .idle) (hb : s.hbRunning = true → ∃ t ∈ s.timers, t.kind = .hb) :
+    CallRes s (stopCall cfg s err user).1 := by
+  unfold stopCall
+  split
+  · have r := stopLoop_res (s := { s with stopDraining := true }) (winv_flag h true) cfg err user hj hb
+    exact ⟨r.winv, r.hb_has, r.noheld, r.shape⟩
+  · exact stopLoop_res h cfg err user hj hb
 
 /-- result of `rejoin_after_error` / of an error escaping the join -/
 structure ErrRes (s s' : St) : Prop where
